@@ -292,6 +292,73 @@ def data_accessors(data_src):
     return shapes
 
 
+RUST_TYPES = {
+    "usize": "usize", "f64": "f64", "u32": "u32", "*mut usize": "ptr_mut_usize", "*const usize": "ptr_const_usize",
+    "*const Data": "ptr_const_data", "*mut Data": "ptr_mut_data", "*const c_void": "ptr_const_void",
+    "*const Adjncy<'_>": "ptr_const_adjncy", "*mut Adjncy": "ptr_mut_adjncy", "*mut Adjncy<'static>": "ptr_mut_adjncy",
+    "Type": "enum_type", "Error": "enum_err", "*const c_char": "ptr_const_char",
+    'extern "C" fn(*const c_void, usize) -> *const c_void': "fn_ith", "": "void",
+}
+C_TYPES = {
+    "uintptr_t": "usize", "double": "f64", "uint32_t": "u32", "uintptr_t *": "ptr_mut_usize", "const uintptr_t *": "ptr_const_usize",
+    "const coupe_data *": "ptr_const_data", "coupe_data *": "ptr_mut_data", "const void *": "ptr_const_void",
+    "const coupe_adjncy *": "ptr_const_adjncy", "coupe_adjncy *": "ptr_mut_adjncy",
+    "enum coupe_type": "enum_type", "enum coupe_err": "enum_err", "const char *": "ptr_const_char",
+    "const void *(*)(const void *, uintptr_t)": "fn_ith", "void": "void",
+}
+
+
+def rust_signature(name, f):
+    sig = f["sig"]
+    pi = sig.find("(")
+    pe = match_close(sig, pi)
+    params = []
+    for prm in split_top(sig[pi + 1 : pe]):
+        mm = re.match(r"^\s*(?:mut\s+)?(\w+)\s*:\s*(.+?)\s*$", prm, re.S)
+        if not mm:
+            raise Fail("%s: parameter not understood: %r" % (name, ws(prm)))
+        t = ws(mm.group(2))
+        if t not in RUST_TYPES:
+            raise Fail("%s: parameter type %r has no C counterpart known to the translator" % (name, t))
+        params.append(RUST_TYPES[t])
+    ret = ws(sig[pe + 1 :])
+    ret = ws(re.sub(r"\bwhere\b.*$", "", ret, flags=re.S))
+    ret = ret[2:].strip() if ret.startswith("->") else ret
+    if ret not in RUST_TYPES:
+        raise Fail("%s: return type %r has no C counterpart known to the translator" % (name, ret))
+    return params, RUST_TYPES[ret]
+
+
+def c_signature(decl):
+    """`ret name(params)` -> (name, params, ret) with canonical type tokens."""
+    d = ws(decl)
+    m = re.match(r"^(.*?)\b(coupe_\w+)\s*\((.*)\)$", d, re.S)
+    if not m:
+        raise Fail("coupe.h: prototype not understood: %r" % d)
+    ret, name, plist = ws(m.group(1)), m.group(2), m.group(3)
+    params = []
+    for prm in split_top(plist):
+        prm = ws(prm)
+        fm = re.match(r"^(.*)\(\*\s*\w+\s*\)\s*\((.*)\)$", prm)
+        if fm:
+            t = "%s(*)(%s)" % (fm.group(1).replace("* ", "*").replace(" *", " *"), fm.group(2))
+            t = ws(t)
+        else:
+            mm = re.match(r"^(.*?)(\w+)$", prm)
+            if not mm:
+                raise Fail("coupe.h: parameter of %s not understood: %r" % (name, prm))
+            t = ws(mm.group(1))
+        t = re.sub(r"\s*\*\s*", " *", t).strip()
+        t = t.replace(" *(", " *(").replace("( *)", "(*)")
+        if t not in C_TYPES:
+            raise Fail("coupe.h: parameter type %r of %s is not known to the translator" % (t, name))
+        params.append(C_TYPES[t])
+    ret = re.sub(r"\s*\*\s*", " *", ret).strip()
+    if ret not in C_TYPES:
+        raise Fail("coupe.h: return type %r of %s is not known to the translator" % (ret, name))
+    return name, params, C_TYPES[ret]
+
+
 def analyse_entry(name, f, fns, macros):
     """One exported algorithm entry point -> dict of table fields."""
     body = f["body"]
@@ -387,8 +454,58 @@ def analyse_entry(name, f, fns, macros):
         if not mm or mm.group(1) not in ("PointND<D>", "Point2D"):
             raise Fail("%s: how the points are read is not understood" % name)
         pview = mm.group(1)
+    # the algorithm's struct literal: which C argument feeds each field, through which conversion
+    lits = [m for m in re.finditer(r"\bcoupe::(\w+)\s*\{", body)]
+    if len(lits) != 1:
+        raise Fail("%s: expected exactly one `coupe::Alg { .. }` literal, found %d" % (name, len(lits)))
+    alg = lits[0].group(1)
+    i = lits[0].end() - 1
+    lit = body[i + 1 : match_close(body, i)]
+    fields = []
+    for fld in split_top(lit):
+        fld = ws(fld)
+        mm = re.match(r"^(\w+)(?:\s*:\s*(.*))?$", fld, re.S)
+        if not mm:
+            raise Fail("%s: field of coupe::%s not understood: %r" % (name, alg, fld))
+        fname, expr = mm.group(1), mm.group(2)
+        if expr is None:
+            fields.append((fname, "same", fname))
+            continue
+        m1 = re.match(r"^(\w+)$", expr)
+        m2 = re.match(r"^if (\w+) == 0 \{ None \} else \{ Some\((\w+)\) \}$", expr)
+        m3 = re.match(r"^if (\w+) <= 0\.0 \{ None \} else \{ Some\((\w+)\) \}$", expr)
+        if m1:
+            fields.append((fname, "same", m1.group(1)))
+        elif m2 and m2.group(1) == m2.group(2):
+            fields.append((fname, "zero_none", m2.group(1)))
+        elif m3 and m3.group(1) == m3.group(2):
+            fields.append((fname, "nonpositive_none", m3.group(1)))
+        else:
+            raise Fail("%s: value of field %s of coupe::%s not understood: %r" % (name, fname, alg, expr))
+    # scalar parameters of the C function, in order
+    sig = f["sig"]
+    pi = sig.find("(")
+    plist = sig[pi + 1 : match_close(sig, pi)]
+    scalars = []
+    for prm in split_top(plist):
+        mm = re.match(r"^\s*(?:mut\s+)?(\w+)\s*:\s*(.+?)\s*$", prm, re.S)
+        if not mm:
+            raise Fail("%s: parameter not understood: %r" % (name, ws(prm)))
+        pn, pt = mm.group(1), ws(mm.group(2))
+        if pt in ("usize", "f64", "u32"):
+            if pn != "dimension":
+                scalars.append((pn, pt))
+        elif not pt.startswith("*"):
+            raise Fail("%s: parameter %s has type %s" % (name, pn, pt))
+    for _, _, arg in fields:
+        if arg not in [n for n, _ in scalars]:
+            raise Fail("%s: field value %s is not a scalar parameter of the function" % (name, arg))
+    # nothing may rebind a scalar parameter before it is used
+    for n_, _ in scalars:
+        if re.search(r"\blet\s+(?:mut\s+)?%s\b" % re.escape(n_), body):
+            raise Fail("%s: parameter %s is rebound" % (name, n_))
     return dict(name=name, guarded=guarded, prechecks=pcs, count_from=cnt.group(1), dims=dims, dim_default=dim_default,
-                ok_code=ok_code, err=err, wtypes=wtypes, wvia=wvia, pview=pview)
+                ok_code=ok_code, err=err, wtypes=wtypes, wvia=wvia, pview=pview, alg=alg, fields=fields, scalars=scalars)
 
 
 def gen_ffi():
@@ -478,6 +595,8 @@ def gen_ffi():
         h = h[: m.start()] + h[match_close(h, i) + 1 :]
     h = re.sub(r'extern\s+"C"\s*\{', "", h)
     declared = []
+    hsigs = []
+    rsigs = [(n,) + rust_signature(n, fns[n]) for n in exported]
     for decl in h.split(";"):
         d = ws(decl).lstrip("} ")
         if not d or "(" not in d:
@@ -488,6 +607,7 @@ def gen_ffi():
         if not m or not m.group(1).startswith("coupe_"):
             raise Fail("coupe.h: prototype not understood: %r" % d)
         declared.append(m.group(1))
+        hsigs.append(c_signature(d))
 
     S = coq_str
     o = HEADER.format(src="%s, %s, %s, src/algorithms.rs, src/algorithms/hilbert_curve.rs" % (LIB, DATA, HDR))
@@ -509,16 +629,20 @@ def gen_ffi():
     o += "\n(* algorithm entry points: name, algorithm call inside the catch_unwind closure?, early returns that precede the\n"
     o += "   guarded region (condition, code) in order, data set whose length sizes the output slice, supported dimensions and the\n"
     o += "   code of the default arm, code of Ok, how Err is mapped (\"from\" = Error::from, otherwise a constant code), element type\n"
-    o += "   the weights are read at for each Type tag, element type of the points *)\n"
+    o += "   the weights are read at for each Type tag, element type of the points, the coupe:: algorithm struct that is built,\n"
+    o += "   the scalar parameters of the C function in order, and for each field of the struct literal (field, conversion, parameter)\n"
+    o += "   with conversion same | zero_none (0 => None) | nonpositive_none (<= 0.0 => None) *)\n"
     o += "Record ffi_entry := mk_ffi_entry {\n  fe_name : string; fe_guarded : bool; fe_prechecks : list (string * string); fe_count_from : string;\n"
-    o += "  fe_dims : list N; fe_dim_default : string; fe_ok : string; fe_err : string;\n  fe_weight_types : list (string * string); fe_weights_via : string; fe_points : string }.\n"
+    o += "  fe_dims : list N; fe_dim_default : string; fe_ok : string; fe_err : string;\n  fe_weight_types : list (string * string); fe_weights_via : string; fe_points : string;\n  fe_alg : string; fe_scalar_args : list string; fe_fields : list (string * string * string) }.\n"
     ents = []
     for e in entries:
-        ents.append("mk_ffi_entry %s %s %s %s\n     %s %s %s %s\n     %s %s %s" % (
+        ents.append("mk_ffi_entry %s %s %s %s\n     %s %s %s %s\n     %s %s %s\n     %s %s\n     %s" % (
             S(e["name"]), coq_bool(e["guarded"]),
             coq_list("(%s, %s)" % (S(a), S(b)) for a, b in e["prechecks"]), S(e["count_from"]),
             coq_list("%d%%N" % d for d in e["dims"]), S(e["dim_default"]), S(e["ok_code"]), S(e["err"]),
-            coq_list("(%s, %s)" % (S(a), S(b)) for a, b in e["wtypes"]), S(e["wvia"]), S(e["pview"])))
+            coq_list("(%s, %s)" % (S(a), S(b)) for a, b in e["wtypes"]), S(e["wvia"]), S(e["pview"]),
+            S(e["alg"]), coq_list(S(n) for n, _ in e["scalars"]),
+            coq_list("(%s, %s, %s)" % (S(a), S(b), S(c)) for a, b, c in e["fields"])))
     o += "Definition ffi_entries : list ffi_entry := [\n  " + ";\n  ".join(ents) + "\n].\n"
     o += "\n(* element type chosen by each data macro for each Type tag; accessor shape of each representation (data.rs) *)\n"
     o += "Definition ffi_macro_types : list (string * list (string * string)) := %s.\n" % coq_list(
@@ -526,6 +650,12 @@ def gen_ffi():
     o += "Definition ffi_data_accessors : list (string * string) := %s.\n" % coq_list("(%s, %s)" % (S(a), S(b)) for a, b in shapes)
     o += "\n(* (d) functions declared in coupe.h *)\n"
     o += "Definition ffi_declared : list string := %s.\n" % coq_list(S(n) for n in declared)
+    o += "\n(* prototypes on both sides: (name, parameter types in order, return type), types as ABI tokens\n"
+    o += "   (usize = uintptr_t, f64 = double, u32 = uint32_t, ptr_* = pointers, enum_* = the two enums, fn_ith = the callback) *)\n"
+    o += "Definition ffi_rust_prototypes : list (string * list string * string) := %s.\n" % coq_list(
+        "(%s, %s, %s)" % (S(n), coq_list(S(t) for t in ps), S(r)) for n, ps, r in rsigs)
+    o += "Definition ffi_header_prototypes : list (string * list string * string) := %s.\n" % coq_list(
+        "(%s, %s, %s)" % (S(n), coq_list(S(t) for t in ps), S(r)) for n, ps, r in hsigs)
     return o
 
 
